@@ -176,7 +176,9 @@ def renderOut (c : Case) (x : Nat) : String := if c.str then "s" ++ pad3 x ++ "!
 def render (c : Case) (xs : List Nat) : String := "[" ++ " ".intercalate (xs.map (renderOut c)) ++ "]"
 
 /-- canonical form of the output: as is (ordered mode), sorted (RandomOrder; `f` is monotone on the inputs used) -/
-def canon (c : Case) (l : List Nat) : List Nat := if c.random then l.mergeSort (fun a b => a ≤ b) else l
+def leNat : Nat → Nat → Bool := fun a b => a ≤ b
+
+def canon (c : Case) (l : List Nat) : List Nat := if c.random then l.mergeSort leNat else l
 
 def obsLine (c : Case) (out : List Nat) (maxc : String) : String :=
   s!"res={render c (canon c out)} once=ok maxc={maxc} after=ok"
